@@ -78,18 +78,84 @@ def coq_make(targets=None):
             raise BuildError('coq: ' + (m.group(1) + ':' + m.group(2) if m else 'make'), e.output)
 
 
-def build_driver():
-    """Extract the executable model and build the OCaml driver when stale."""
+CURRENT_DRIVER = [os.path.join(OCAML, 'driver')]
+
+
+def build_driver(components=None):
+    """Extract the executable model and build the OCaml driver when stale.
+    components=None: every fragment (shared driver ocaml/driver).  With a list of fragment
+    names (coq/Extract/lists/<c>.list, ocaml/registry.d/<c>.*) a private driver holding only
+    those components is built under ocaml/build/<names>/, so that a component that does not
+    build cannot break the checks of the others."""
     with _Lock():
-        drv = os.path.join(OCAML, 'driver')
-        srcs = glob.glob(os.path.join(COQ, '**', '*.v'), recursive=True) + \
-            [os.path.join(OCAML, f) for f in ('driver.ml', 'registry.ml')]
-        if os.path.exists(drv) and os.path.getmtime(drv) >= newest(srcs):
-            return
-        sh('coqc -Q ../coq OW ../coq/Extract/Extract.v -o ./Extract.vo && rm -f Extract.vo Extract.glob .Extract.aux ../coq/Extract/*.glob',
-           cwd=OCAML, timeout=1200)
+        sh([sys.executable, os.path.join(VERIF, 'tools', 'assemble.py')])
+        if components is None:
+            drv = os.path.join(OCAML, 'driver')
+            CURRENT_DRIVER[0] = drv
+            srcs = glob.glob(os.path.join(COQ, '**', '*.v'), recursive=True) + \
+                [os.path.join(OCAML, f) for f in ('driver.ml', 'registry.ml')]
+            if os.path.exists(drv) and os.path.getmtime(drv) >= newest(srcs):
+                return drv
+            sh('coqc -Q ../coq OW ../coq/Extract/Extract.v -o ./Extract.vo && rm -f Extract.vo Extract.glob .Extract.aux ../coq/Extract/*.glob',
+               cwd=OCAML, timeout=1200)
+            sh('ocamlfind ocamlopt -O2 -w -a -rectypes -thread -package coq-core.kernel -linkpkg '
+               'model.mli model.ml registry.ml driver.ml -o driver', cwd=OCAML, timeout=1200)
+            return drv
+        comps = sorted(components)
+        bdir = os.path.join(OCAML, 'build', '+'.join(comps))
+        os.makedirs(bdir, exist_ok=True)
+        drv = os.path.join(bdir, 'driver')
+        CURRENT_DRIVER[0] = drv
+        mods, idents = [], []
+        for cname in comps:
+            lf = os.path.join(COQ, 'Extract', 'lists', cname + '.list')
+            for l in open(lf):
+                l = l.split('#')[0].split()
+                if not l:
+                    continue
+                if l[0] not in mods:
+                    mods.append(l[0])
+                idents += [i for i in l[1:] if i not in idents]
+        vos = [m.replace('.', '/') + '.vo' for m in mods]
+        if not os.path.exists(os.path.join(COQ, 'Makefile')) or \
+                os.path.getmtime(os.path.join(COQ, 'Makefile')) < os.path.getmtime(os.path.join(COQ, '_CoqProject')):
+            sh('coq_makefile -f _CoqProject -o Makefile', cwd=COQ)
+        sh('timeout 3000 make -j16 Base/FInst.vo ' + ' '.join(vos), cwd=COQ)
+        frag = []
+        for cname in comps:
+            for ext in ('.ml', '.kernels', '.commands'):
+                frag.append(os.path.join(OCAML, 'registry.d', cname + ext))
+        deps = [os.path.join(COQ, v) for v in vos] + [f for f in frag if os.path.exists(f)] + [os.path.join(OCAML, 'driver.ml')]
+        if os.path.exists(drv) and os.path.getmtime(drv) >= newest(deps):
+            return drv
+        ext = ('From Coq Require Import Extraction ExtrOcamlBasic ExtrOCamlFloats ExtrOCamlInt63.\n'
+               'From OW Require Import Base.Arith Base.FInst.\n' + ''.join('From OW Require Import %s.\n' % m for m in mods) +
+               'Extraction Language OCaml.\nExtraction "model.ml" FArith ' + ' '.join(idents) + '.\n')
+        open(os.path.join(bdir, 'Extract.v'), 'w').write(ext)
+        sh('coqc -Q %s OW Extract.v && rm -f Extract.vo Extract.glob .Extract.aux' % COQ, cwd=bdir, timeout=1200)
+        reg = ['open Model\ntype string = Stdlib.String.t\ntype char = Stdlib.Char.t\ntype int = Stdlib.Int.t\n'
+               'type kern = Float64.t arith -> Float64.t list -> Float64.t list -> Float64.t list list\n'
+               '  -> (Float64.t list list * Float64.t list) option\n']
+        for cname in comps:
+            f = os.path.join(OCAML, 'registry.d', cname + '.ml')
+            if os.path.exists(f):
+                reg.append(open(f).read())
+        reg.append('let kernels : (string * kern) list = [\n')
+        for cname in comps:
+            f = os.path.join(OCAML, 'registry.d', cname + '.kernels')
+            if os.path.exists(f):
+                reg.append(open(f).read())
+        reg.append(']\nlet commands : (string * (Float64.t arith -> string list -> string)) list = [\n')
+        for cname in comps:
+            f = os.path.join(OCAML, 'registry.d', cname + '.commands')
+            if os.path.exists(f):
+                reg.append(open(f).read())
+        reg.append(']\n')
+        open(os.path.join(bdir, 'registry.ml'), 'w').write(''.join(reg))
+        sh('cp %s %s/driver.ml' % (os.path.join(OCAML, 'driver.ml'), bdir))
         sh('ocamlfind ocamlopt -O2 -w -a -rectypes -thread -package coq-core.kernel -linkpkg '
-           'model.mli model.ml registry.ml driver.ml -o driver', cwd=OCAML, timeout=1200)
+           'model.mli model.ml registry.ml driver.ml -o driver', cwd=bdir, timeout=1200)
+        return drv
 
 
 def build_harness(cmds=('owrun',), tags='verif', race=False):
@@ -135,7 +201,7 @@ def run_impl(lines, binary='owrun', **kw):
 
 
 def run_model(lines, **kw):
-    return run_lines(os.path.join(OCAML, 'driver'), lines, crash_token='MODELCRASH', **kw)
+    return run_lines(CURRENT_DRIVER[0], lines, crash_token='MODELCRASH', **kw)
 
 
 # ---------------------------------------------------------------- kernel cases
@@ -275,7 +341,7 @@ def check_theorems(pid, extra_files=()):
     return (n_theorems, axioms list, output).  Raises BuildError when a proof
     obligation no longer checks."""
     vfile = 'Properties/%s.v' % pid
-    coq_make()
+    coq_make(targets=['Properties/%s.vo' % pid])     # the .vo closure of this property only
     with _Lock():
         out = sh('timeout 1500 coqc -Q . OW %s' % vfile, cwd=COQ)
     src = open(os.path.join(COQ, vfile)).read()
